@@ -1645,6 +1645,19 @@ private:
     {
       s->tlsMode = TlsMode::Client;
       s->ssl = ::SSL_new(_sslCli);
+      // A connection made to a host NAME is bound to that name: send it as SNI
+      // and, when peer verification is on, require the server certificate to be
+      // issued for it (RFC 6125) - a chain that merely ends in a trusted CA does
+      // not identify THIS server. IP literals carry no name to check.
+      if (s->ssl && !isIPv4 && !isIPv6 && !cr.host.empty())
+      {
+        ::SSL_set_tlsext_host_name(s->ssl, cr.host.c_str());
+        if (_config.clientTls.verifyPeer && ::SSL_set1_host(s->ssl, cr.host.c_str()) != 1)
+        {
+          ::SSL_free(s->ssl);
+          s->ssl = nullptr; // handled by the failure path below
+        }
+      }
       if (!s->ssl)
       {
         // Fire onClose for the sid the caller already received from connect()
